@@ -34,3 +34,14 @@
 (define-fun strsuffix ((p String) (s String)) Bool (str.suffixof p s))
 (define-fun strcontains ((s String) (t String)) Bool (str.contains s t))
 (define-fun strreplaceall ((s String) (a String) (b String)) String (str.replace_all s a b))
+; number of capturing groups of a compiled regular expression (assumed: package regexp)
+(declare-fun reNumSub (Int) Int)
+(assert (forall ((r Int)) (! (>= (reNumSub r) 0) :pattern ((reNumSub r)))))
+; whether a string names an R4 resource type (decided by the protofields registry)
+(declare-fun isResourceTypeS (String) Bool)
+; C19: resource identity comparison: the same pointer, or both non-nil with equal (type, id, version)
+(define-fun identEq ((p Int) (pt String) (pi String) (pv String) (q Int) (qt String) (qi String) (qv String)) Bool
+  (or (= p q) (and (not (= p 0)) (not (= q 0)) (= pt qt) (= pi qi) (= pv qv))))
+; the parts strings.Split yields, named
+(declare-fun splitLen (String String) Int)
+(declare-fun splitAt (String String Int) String)
